@@ -133,3 +133,56 @@ def _sig_table(src):
 
 
 register("srv_signal_table", span_custom(_G, _sig_table))
+
+
+_B = "actix-server/src/builder.rs"
+
+
+def _config_default(src):
+    """`impl Default for ServerWorkerConfig`: the configuration of a server on which the builder's setters were never
+    called (documented: shutdown timeout 30 s, 25600 connections per worker, 512 / parallelism blocking threads, at least 1).
+    An unrecognised shape yields 0 for the part that was not understood (the `default_shutdown_timeout_is_30s` theorem then fails)."""
+    m = re.search(r"impl Default for ServerWorkerConfig\s*\{.*?\n\}\n", src, re.S)
+    body = m.group(0) if m else ""
+    secs, conns, fallback, blocking = 0, 0, 0, "0"
+    t = re.findall(r"\bshutdown_timeout:\s*Duration::from_(secs|millis)\(\s*([0-9_]+)\s*\)", body)
+    if len(t) == 1 and t[0][0] == "secs":
+        secs = int(t[0][1].replace("_", ""))
+    c = re.findall(r"\bmax_concurrent_connections:\s*([0-9_]+)\s*,", body)
+    if len(c) == 1:
+        conns = int(c[0].replace("_", ""))
+    p = re.search(r"let parallelism\s*=\s*std::thread::available_parallelism\(\)\s*\.map_or\(\s*([0-9_]+)\s*,\s*NonZeroUsize::get\s*\)\s*;", body)
+    b = re.search(r"let max_blocking_threads\s*=\s*std::cmp::max\(\s*([0-9_]+)\s*/\s*parallelism\s*,\s*([0-9_]+)\s*\)\s*;", body)
+    plain = re.search(r"\n\s*max_blocking_threads\s*,", body)
+    if p and b and plain:
+        fallback = int(p.group(1).replace("_", ""))
+        blocking = "max (%d / parallelism) %d" % (int(b.group(1).replace("_", "")), int(b.group(2).replace("_", "")))
+    lean = ("def wcDefaultShutdownSecs : Nat := %d\n\ndef wcDefaultMaxConn : Nat := %d\n\n"
+            "def wcDefaultParallelismFallback : Nat := %d\n\ndef wcDefaultBlockingThreads (parallelism : Nat) : Nat := %s"
+            % (secs, conns, fallback, blocking))
+    return lean, body or src[:200]
+
+
+def _builder_default(src):
+    """`ServerBuilder::new` starts from `ServerWorkerConfig::default()` and `shutdown_timeout(sec)` stores `sec` seconds"""
+    new = re.search(r"pub fn new\(\) -> ServerBuilder\s*\{.*?\n    \}\n", src, re.S)
+    st = re.search(r"pub fn shutdown_timeout\(mut self, sec: u64\) -> Self\s*\{.*?\n    \}\n", src, re.S)
+    ok = bool(new and st and re.search(r"\bworker_config:\s*ServerWorkerConfig::default\(\)\s*,", new.group(0))
+              and re.search(r"self\.worker_config\s*\.shutdown_timeout\(\s*Duration::from_secs\(\s*sec\s*\)\s*\)\s*;\s*self\s*\}", st.group(0)))
+    return "def sbStartsFromDefaultConfig : Bool := %s" % ("true" if ok else "false"), (new.group(0) if new else "") + (st.group(0) if st else "")
+
+
+def _mux(src):
+    """`ServerEventMultiplexer::poll_next`: after the signal future the command channel is polled and its answer handed on
+    unchanged; the channel is closed nowhere in server.rs (a command sent while a `Stop` is being handled stays in the channel
+    until `run` returns: its ack sender is dropped only then — C06, every stop future)"""
+    m = re.search(r"impl Stream for ServerEventMultiplexer\s*\{.*?\n\}\n", src, re.S)
+    body = m.group(0) if m else ""
+    ok = bool(m and re.search(r"\}\s*this\.cmd_rx\.poll_recv\(cx\)\s*\}\s*\}\s*$", body)
+              and not re.search(r"cmd_rx\s*\.\s*close\s*\(", src))
+    return "def smMuxHandsOnCmdRx : Bool := %s" % ("true" if ok else "false"), body or src[:200]
+
+
+register("srv_worker_config_default", span_custom(_W, _config_default))
+register("srv_builder_default_config", span_custom(_B, _builder_default))
+register("srv_mux_cmd_rx", span_custom(_S, _mux))
